@@ -5,7 +5,7 @@ import re
 import z3
 
 from symex import strs
-from symex.core import WS_RANGES, Render, SInt, SStr, in_ranges, lift_str
+from symex.core import WS_RANGES, Infeasible, Render, SInt, SStr, in_ranges, lift_str
 
 FIELDS = ["node_id", "child_id", "type", "ack", "sub_type", "payload"]
 VERSIONS = ["1.4", "1.5", "2.0", "2.1", "2.2"]
@@ -108,6 +108,11 @@ class FakeConn:
         return f"<FakeConn {self.name}>"
 
 
+class UserCallbackError(Exception):
+    """What a user-supplied callback raises: an application-defined exception class, i.e. not
+    one of the built-in families a handler might enumerate."""
+
+
 class EventLog:
     """Event callback: records the message fields and the state it sees; may raise."""
 
@@ -124,7 +129,7 @@ class EventLog:
         self.calls.append((tuple(d[f] for f in FIELDS), snap_gateway(self.gw) if self.gw else None))
         if self.w.is_true(self.raises) if self.w is not None else self.raises:
             from symex.core import prog
-            raise prog(RuntimeError("event callback failed"))
+            raise prog(UserCallbackError("event callback failed"))
 
 
 class PubSubLog:
@@ -139,13 +144,13 @@ class PubSubLog:
         self.published.append((topic, payload, qos, retain))
         if self.raises:
             from symex.core import prog
-            raise prog(RuntimeError("publish failed"))
+            raise prog(UserCallbackError("publish failed"))
 
     def sub(self, topic, callback, qos):
         self.subscribed.append((topic, callback, qos))
         if self.raises:
             from symex.core import prog
-            raise prog(RuntimeError("subscribe failed"))
+            raise prog(UserCallbackError("subscribe failed"))
 
 
 def _noconnect(transport):
@@ -208,18 +213,19 @@ class GW:
 
 def make_gateway(w, version, flavour="sync", transport="serial", cb_raises=False,
                  persistence=False, persistence_file="mysensors.pickle", in_prefix="",
-                 out_prefix="", pubsub_raises=False, connected=True):
+                 out_prefix="", pubsub_raises=False, connected=True, callback="registered"):
     import mysensors
     from mysensors import gateway_mqtt
     from mysensors.transport import AsyncTransport, SyncTransport
     g = GW()
     g.flavour, g.transport_kind, g.version = flavour, transport, version
     g.events = EventLog(cb_raises, w)
+    cb = g.events if callback == "registered" else None
     if transport == "serial":
         cls = mysensors.BaseSyncGateway if flavour == "sync" else mysensors.BaseAsyncGateway
         gw = cls.__new__(cls)
         tr = w.new(SyncTransport if flavour == "sync" else AsyncTransport, gw, _noconnect)
-        w.call(cls.__init__, gw, tr, event_callback=g.events, protocol_version=version,
+        w.call(cls.__init__, gw, tr, event_callback=cb, protocol_version=version,
                persistence=persistence, persistence_file=persistence_file)
         g.conn = FakeConn()
         if connected:
@@ -228,7 +234,7 @@ def make_gateway(w, version, flavour="sync", transport="serial", cb_raises=False
         cls = gateway_mqtt.MQTTGateway if flavour == "sync" else gateway_mqtt.AsyncMQTTGateway
         g.pubsub = PubSubLog(pubsub_raises)
         gw = w.new(cls, g.pubsub.pub, g.pubsub.sub, in_prefix=in_prefix, out_prefix=out_prefix,
-                   event_callback=g.events, protocol_version=version, persistence=persistence,
+                   event_callback=cb, protocol_version=version, persistence=persistence,
                    persistence_file=persistence_file)
     else:
         raise ValueError(transport)
@@ -669,6 +675,16 @@ class AsyncRecorder:
         from symex.env import Done
         self.sink.append(args)
         return Done(None)
+
+
+def concrete_int(w, x, values):
+    """A symbolic integer known to be one of `values`, made concrete by forking."""
+    if isinstance(x, int):
+        return x
+    for v in values:
+        if w.is_true(w.eq(x, v)):
+            return int(v)
+    raise Infeasible()
 
 
 def as_int(x):
